@@ -8,7 +8,8 @@
 (* (the contract is not vacuous).                                                        *)
 EXTENDS Monitoring, TLC
 
-CONSTANTS KeyIds, Statuses, MCClasses, MCAccessors, MaxKeys, MaxHandles, MaxMgrs, MaxPrims, MaxDid, MaxOpts
+CONSTANTS KeyIds, Statuses, MCClasses, MCAccessors, MaxKeys, MaxHandles, MaxMgrs, MaxPrims, MaxDid, MaxOpts,
+          MCPublic     \* BOOLEAN: Handle.Public() is among the steps
 
 NoKey == "none"
 MCAnns == {NilAnn, AnnOf(<<>>), AnnOf(<<<<"team", "a">>>>)}
@@ -22,18 +23,18 @@ PubOf(ks) == [i \in DOMAIN ks |-> [ks[i] EXCEPT !.kt = "PubKey"]]
 Sizes == {<<3, 8>>}
 
 MCNext ==
-  \/ \E ks \in MCKeysets, opts \in MCOpts : ReadHandle(ks, opts)
-  \/ NewManager
-  \/ \E h \in DOMAIN handles : ManagerFromHandle(h)
+  \/ Len(handles) < MaxHandles /\ \E ks \in MCKeysets, opts \in MCOpts : ReadHandle(ks, opts)
+  \/ Len(mgrs) < MaxMgrs /\ NewManager
+  \/ Len(mgrs) < MaxMgrs /\ \E h \in DOMAIN handles : ManagerFromHandle(h)
   \/ \E m \in DOMAIN mgrs, a \in MCAnns : SetAnnotations(m, a)
-  \/ \E m \in DOMAIN mgrs, ks \in MCKeysets : ManagerHandle(m, ks)
-  \/ \E h \in DOMAIN handles : handles[h].via # "public" /\ Public(h, PubOf(handles[h].ks))
-  \/ \E h \in DOMAIN handles, c \in MCClasses : NewPrimitive(h, c)
-  \/ \E p \in DOMAIN prims, sz \in Sizes :
+  \/ Len(handles) < MaxHandles /\ \E m \in DOMAIN mgrs, ks \in MCKeysets : ManagerHandle(m, ks)
+  \/ MCPublic /\ Len(handles) < MaxHandles /\ \E h \in DOMAIN handles : handles[h].via # "public" /\ Public(h, PubOf(handles[h].ks))
+  \/ Len(prims) < MaxPrims /\ \E h \in DOMAIN handles, c \in MCClasses : NewPrimitive(h, c)
+  \/ Len(did) < MaxDid /\ \E p \in DOMAIN prims, sz \in Sizes :
        \E op \in OpSet(prims[p].cls) :
          \/ \E by \in KeyIds : Call(p, op, TRUE, by, sz[1], sz[2])
          \/ Call(p, op, FALSE, NoKey, sz[1], sz[2])
-  \/ \E h \in DOMAIN handles, acc \in MCAccessors : \E i \in DOMAIN handles[h].ks : Access(h, acc, i)
+  \/ Len(did) < MaxDid /\ \E h \in DOMAIN handles, acc \in MCAccessors : \E i \in DOMAIN handles[h].ks : Access(h, acc, i)
 
 Bound ==
   /\ Len(handles) <= MaxHandles /\ Len(mgrs) <= MaxMgrs /\ Len(prims) <= MaxPrims /\ Len(did) <= MaxDid
